@@ -66,44 +66,6 @@ theorem C25_sorted_inter (a b : IntSet) (ha : Sorted a.set) (hb : Sorted b.set) 
   repeat' split
   all_goals first | assumption | trivial
 
-/-- Extensionality: a sorted representation is canonical, so comparing the Go result with the
-model result as lists decides equality of the denoted sets. -/
-theorem sorted_ext (a b : List Int) (ha : Sorted a) (hb : Sorted b)
-    (h : ∀ v, v ∈ a ↔ v ∈ b) : a = b := by
-  induction a generalizing b with
-  | nil =>
-    cases b with
-    | nil => rfl
-    | cons y b => have := (h y).2 List.mem_cons_self; cases this
-  | cons x a ih =>
-    cases b with
-    | nil => have := (h x).1 List.mem_cons_self; cases this
-    | cons y b =>
-      have hx := ha.head_lt
-      have hy := hb.head_lt
-      have hxy : x = y := by
-        have h1 := (h x).1 List.mem_cons_self
-        have h2 := (h y).2 List.mem_cons_self
-        simp at h1 h2
-        rcases h1 with h1 | h1
-        · exact h1
-        · rcases h2 with h2 | h2
-          · exact h2.symm
-          · have := hx y h2; have := hy x h1; omega
-      subst hxy
-      congr 1
-      apply ih b ha.tail hb.tail
-      intro v
-      have := h v
-      simp at this
-      constructor
-      · intro hv
-        have := hx v hv
-        grind
-      · intro hv
-        have := hy v hv
-        grind
-
 -- non-vacuity: concrete sorted sets meet the hypotheses
 example : Sorted [1, 3, 5] ∧ Sorted [2, 3] := by simp [Sorted]
 example : (IntSet.merge ⟨true, [1, 3, 5]⟩ ⟨false, [3, 7]⟩) = ⟨true, [1, 5]⟩ := by
